@@ -324,6 +324,7 @@ def _run_cli(cmd, text, timeout_s):
 
 
 Z3_QUICK_MS = int(os.environ.get('PYVC_Z3_QUICK_MS', '2500'))
+SAT_GRACE_S = float(os.environ.get('PYVC_SAT_GRACE_S', '8'))     # how long a cvc5 'sat' waits for a contradicting 'unsat'
 CVC5_QUICK_MS = int(os.environ.get('PYVC_CVC5_QUICK_MS', '8000'))
 
 
@@ -369,6 +370,7 @@ def _race(text, budget_s):
                 pass
         answers = {}
         t0 = time.time()
+        sat_at = None
         while procs and time.time() - t0 < budget_s + 5:
             for k, p in list(procs.items()):
                 if p.poll() is not None:
@@ -385,6 +387,10 @@ def _race(text, budget_s):
                         return k, 'unsat', answers
             if not procs or time.time() - t0 >= budget_s + 5:
                 break
+            if sat_at is None and any(v_ == 'sat' and k_.startswith('cvc5') for k_, v_ in answers.items()):
+                sat_at = time.time()
+            if sat_at is not None and time.time() - sat_at > SAT_GRACE_S:
+                break          # the others had their chance to contradict cvc5's 'sat'
             time.sleep(0.02)
         for k_, v_ in answers.items():
             if v_ == 'sat' and k_.startswith('cvc5'):
@@ -430,7 +436,7 @@ def _solve(ob, both):
             out['status'], out['backend'] = 'discharged', who
         elif ans == 'sat':
             out['status'], out['backend'] = 'failed', who
-            v2, m, _ = _z3_try(ob, Z3_TIMEOUT_MS)
+            v2, m, _ = _z3_try(ob, min(Z3_TIMEOUT_MS, 15000))     # only to obtain a model for the replay
             if v2 == 'unsat':
                 out['status'] = 'undecided'
                 notes.append('solver disagreement: %s sat, z3 unsat' % who)
@@ -938,6 +944,9 @@ def verify_unit(c, mutate=None, do_cross=True, cross_n=40, seed=0, both=False, r
         res.feas = {'queries': x.feas_queries, 'secs': round(x.feas_secs, 3)}
         if do_cross and mutate is None:
             res.crosscheck = crosscheck(c, f, cross_n, seed)
+    except z3.Z3Exception as ex:
+        # an interrupted or resource-limited solver call inside the exploration: no verdict for this unit, not a checker defect
+        res.unsupported.append({'trace': [], 'reason': 'solver call aborted during exploration: %s' % ex})
     except Exception as ex:
         res.error = "%s: %s\n%s" % (type(ex).__name__, ex, traceback.format_exc()[-1500:])
     res.secs = time.time() - t0
